@@ -203,11 +203,11 @@ var earlyTable = []earlyT{
 	{"var x = /a/\ng = 1", "accept", "regexp_flags_detached", "7.8.5 / 7.9.1"},
 	{"x = /a/ g", "reject", "regexp_flags_detached", "7.8.5: flags follow the closing slash immediately"},
 	{"x = /a/g", "accept", "-", "7.8.5"},
-	{"/a/gg", "reject", "regexp_flags_unchecked", "7.8.5 / 15.10.4.1: a flag may not repeat; the error is early"},
-	{"/a/x", "reject", "regexp_flags_unchecked", "15.10.4.1: only g, i, m"},
-	{"var side = 1; if (false) /a/gg; side", "reject", "regexp_flags_unchecked", "7.8.5: early error even in code that never runs"},
-	{"x = /a/gig", "reject", "regexp_flags_unchecked", "15.10.4.1"},
-	{"x = /a/G", "reject", "regexp_flags_unchecked", "15.10.4.1"},
+	{"/a/gg", "reject", "-", "7.8.5 / 15.10.4.1: a flag may not repeat; the error is early"},
+	{"/a/x", "reject", "-", "15.10.4.1: only g, i, m"},
+	{"var side = 1; if (false) /a/gg; side", "reject", "-", "7.8.5: early error even in code that never runs"},
+	{"x = /a/gig", "reject", "-", "15.10.4.1"},
+	{"x = /a/G", "reject", "-", "15.10.4.1"},
 	{"x = /a/gim", "accept", "-", "15.10.4.1"},
 	{"x = /a/mig", "accept", "-", "15.10.4.1"},
 	{"x = /a/m", "accept", "-", "15.10.4.1"},
@@ -227,6 +227,9 @@ var earlyFnTable = []struct{ params, body, expect, ref string }{
 	{"", "break;", "reject", "12.8"},
 	{"", "return", "accept", "12.9"},
 	{"", "x = 1 } { y = 2", "reject", "15.3.2.1"},
+	{"a //", "return a", "accept", "15.3.2.1: the parameter text is a FormalParameterList on its own; a line comment ends with it"},
+	{"a /*", "*/ return a", "reject", "15.3.2.1: parameters and body are parsed separately"},
+	{"a, b /* c */", "return a /* d */", "accept", "15.3.2.1"},
 }
 
 // file.FileSet.Position must agree with File.Position (the per-file answer) for every index of every file of a set.
@@ -273,7 +276,7 @@ func implEarlyFn(f []string) (out string) {
 
 func genEarly(c *h.Ctx) {
 	for _, set := range earlyFsTable {
-		c.Add("earlyfs accept fileset_position x"+astx.Hex(strings.Join(set, "\x00")), "earlyfs")
+		c.Add("earlyfs accept - x"+astx.Hex(strings.Join(set, "\x00")), "earlyfs")
 	}
 	for _, t := range earlyFnTable {
 		c.Add("earlyfn "+t.expect+" - x"+astx.Hex(t.params)+" x"+astx.Hex(t.body), "earlyfn", "earlyfn:"+t.expect)
